@@ -21,6 +21,13 @@ Theorem C06_get_dst_indices_valid : forall pol days pat,
 Proof. exact get_dst_indices_valid_l. Qed.
 Print Assumptions C06_get_dst_indices_valid.
 
+(* the indices are a function of the frame's LOCAL clock pattern (hour and null-flag of every row, per local date) —
+   the instants do not enter ... *)
+Theorem C06_dst_indices_function_of_local_clock : forall pol days1 days2,
+  map local_view days1 = map local_view days2 -> get_dst_indices pol days1 = get_dst_indices pol days2.
+Proof. exact get_dst_indices_local_l. Qed.
+Print Assumptions C06_dst_indices_function_of_local_clock.
+
 (* ------------------------------------------------------------------ correct_dst *)
 (* every day ends up with exactly 24 slots: a regular day is untouched, a short day gets one synthesised slot at
    the skipped hour, the two occurrences of a repeated hour are merged into one slot *)
@@ -309,3 +316,18 @@ Example C06_nonvacuous_daily_inf :      (* row 40 of ex_rows has an infinite tem
   /\ In ({| d_ts := 40; d_temp := Some false; d_obs := Some true |}, None)
         (daily_predict (fun b : bool => b) (fun _ t => Some t) ex_member [0; 1] true ex_rows).
 Proof. split; [reflexivity|]. vm_compute. tauto. Qed.
+
+(* ... so they depend on the zone: the SAME 72 instants seen in a zone without clock change (America/Phoenix) and in a
+   zone that skips hour 2 on the second day (America/Denver; its 72nd row opens a fourth local date) have the same
+   first instant, last instant and length, yet different indices; the indices of one applied to the features of the
+   other give a ragged matrix (what a cache keyed by the ends and the length of the index does: seeded change C06-4) *)
+Definition w_phoenix : list day := mk_days 0 true [] [seq 0 24; seq 0 24; seq 0 24].
+Definition w_denver : list day := mk_days 0 true [] [seq 0 24; clock_hours (Short 2); seq 0 24; [0]].
+Example C06_dst_indices_depend_on_the_zone :
+  index_of w_phoenix = index_of w_denver
+  /\ get_dst_indices d11_repaired w_phoenix = Ok ([], [])
+  /\ get_dst_indices d11_repaired w_denver = Ok ([(1, 2)], [])
+  /\ map local_view w_phoenix <> map local_view w_denver
+  /\ feature_matrix zmean (map (fun d => map (fun _ => 0%Z) (d_rows d)) (firstn 3 w_denver)) ([], []) = Err ERagged
+  /\ feature_matrix zmean (map (fun d => map (fun _ => 0%Z) (d_rows d)) w_phoenix) ([(1, 2)], []) = Err ERagged.
+Proof. vm_compute. repeat split; discriminate. Qed.
